@@ -281,6 +281,13 @@ def handle0 (d : DState) (line : String) : DState × String :=
         let flag := match r.2 with | .exhausted => "exhausted" | .depth => "depth" | .capped => "capped"
         (d, s!"{showNats (r.1.map List.length)} ; {flag}")
       | _, _, _ => (d, "ERR parse")
+    | ["spec.growthw", depth, cap, work], [starts] =>
+      match depth.toNat?, cap.toNat?, work.toNat?, nats starts with
+      | some depth, some cap, some work, some S =>
+        let r := refLayersCapW d.graph.nb S depth d.nGens cap work
+        let flag := match r.2 with | .exhausted => "exhausted" | .depth => "depth" | .capped => "capped"
+        (d, s!"{showNats (r.1.map List.length)} ; {flag}")
+      | _, _, _, _ => (d, "ERR parse")
     | ["bfs"], [starts, opts, stop] =>
       match nats starts, ints opts, parseStop stop with
       | some S, some [maxStore, maxExplore, maxDiam, edges, hashes, nobatch], some stop =>
